@@ -3,9 +3,15 @@
    _handle_max_data_frame, _handle_max_stream_data_frame, _handle_max_streams_*_frame,
    _handle_stop_sending_frame, _unblock_streams, _parse_transport_parameters (the six flow-control
    parameters), the handshake-completion unblock, and the stream part of _write_application
-   (one call of _write_stream_frame / _write_reset_stream_frame / _write_stop_sending_frame per step; the loop
+   (one call of _write_stream_frame / _write_reset_stream_frame / _write_stop_sending_frame per step, and the
+   STREAMS_BLOCKED step; the loop
    of the `fixes` branch: RESET_STREAM and STOP_SENDING are skipped while the stream is blocked by the
    stream-count limit) on top of the C10 sender.
+   Transport parameters come in two transcriptions: [OParams] is _parse_transport_parameters AS IT IS (each present
+   value overwrites the field, streams untouched; open finding C06-F1); [OParamsP] is the function as the PROPOSED
+   repair docs/C06-fix-1.patch (not applied) would make it (an absent limit is 0; a value below the one held is PROTOCOL_VIOLATION when 0-RTT was
+   accepted; when 0-RTT was not accepted every existing stream is put back on the blocked lists until the handshake
+   completes, its highest_offset and the connection's credit counter restart from 0).  The tie probes the source and feeds the one that the tree contains.
    No proofs in this file. *)
 From AQ Require Import lib.Base lib.Tok model.RangeSet model.StreamSend.
 
@@ -73,6 +79,7 @@ Inductive fout :=
 | FValueError                           (* ValueError from the public API *)
 | FQErr (code : Z)                      (* QuicConnectionError raised by a frame handler *)
 | FStop                                 (* a STOP_SENDING frame was written *)
+| FBlocked (limit : option Z)           (* _write_application's STREAMS_BLOCKED step for one kind: the frame's limit, or no frame *)
 | FIneligible                           (* the stream loop of _write_application would not make this call *)
 | FNoStream.                            (* no such stream (the call cannot happen) *)
 
@@ -99,6 +106,7 @@ Definition for_send (c : conn) (sid : Z) : option (conn * strm) :=
    limits is C07's; it is assumed to pass here) *)
 Definition STREAM_STATE_ERROR : Z := 5.
 Definition FRAME_ENCODING_ERROR : Z := 7.
+Definition PROTOCOL_VIOLATION : Z := 10.
 
 Definition from_peer (c : conn) (sid : Z) : option (conn * strm) :=
   match find_strm sid (c_streams c) with
@@ -130,6 +138,12 @@ Definition unblock (c : conn) (uni : bool) : conn :=
     mkConn (c_client c) (c_max_data c) (c_used c) (c_msd_bl c) (c_msd_br c) (c_msd_uni c)
            (c_ms_bidi c) (c_ms_uni c) l blk (c_blk_uni c).
 
+(* how the repaired _parse_transport_parameters is entered *)
+Inductive pmode :=
+| PTicket      (* from_session_ticket=True: restoring the parameters remembered for 0-RTT *)
+| PAccepted    (* handshake parameters, tls.early_data_accepted is True *)
+| PRejected.   (* handshake parameters, 0-RTT not accepted (rejected, or not attempted) *)
+
 Inductive fop :=
 | OSend (sid : Z) (data : list Z) (fin : bool)        (* send_stream_data *)
 | OReset (sid : Z) (code : Z)                         (* reset_stream *)
@@ -146,13 +160,48 @@ Inductive fop :=
 | OPeerOpen (sid : Z)                                 (* any other peer frame that creates the stream *)
 | OStop (sid : Z)                                     (* stop_stream *)
 | OGetStop (sid : Z)                                  (* one _write_stop_sending_frame call *)
-| OStopDeliv (sid : Z) (acked : bool).                (* delivery outcome of a STOP_SENDING frame *)
+| OStopDeliv (sid : Z) (acked : bool)                 (* delivery outcome of a STOP_SENDING frame *)
+| OBlockedFrame (uni : bool)                          (* the STREAMS_BLOCKED step of _write_application for one kind *)
+| OParamsP (m : pmode) (md msd_bl msd_br msd_uni ms_bidi ms_uni : option Z).   (* repaired _parse_transport_parameters *)
 
 Definition orz (o : option Z) (d : Z) : Z := match o with Some v => v | None => d end.
 
 (* the max_offset argument computed by the stream loop *)
 Definition max_offset (c : conn) (t : strm) : Z :=
   Z.min (s_highest (t_send t) + c_max_data c - c_used c) (t_msdr t).
+
+(* the six limits replaced, everything else kept *)
+Definition with_limits (c : conn) (md bl br un sb su : Z) : conn :=
+  mkConn (c_client c) md (c_used c) bl br un sb su (c_streams c) (c_blk_bidi c) (c_blk_uni c).
+
+(* repaired _parse_transport_parameters, not accepted: what was sent under the remembered limits is forgotten --
+   every stream held in _streams is marked blocked and its sender's highest_offset set to 0, _remote_max_data_used
+   is set to 0 -- and the two blocked lists are rebuilt from _streams in creation order *)
+Definition forget (st : send) : send :=
+  mkSend (s_empty st) 0 (s_finished st) (s_reset_pending st) (s_acked st) (s_acked_fin st) (s_buf st)
+         (s_fin st) (s_start st) (s_stop st) (s_pending st) (s_pending_eof st) (s_reset st).
+Definition blocked_again (t : strm) : strm := mkStrm (t_id t) true (t_msdr t) (forget (t_send t)) (t_stop t).
+Definition reblock (c : conn) : conn :=
+  mkConn (c_client c) (c_max_data c) 0 (c_msd_bl c) (c_msd_br c) (c_msd_uni c) (c_ms_bidi c) (c_ms_uni c)
+         (map blocked_again (c_streams c))
+         (map t_id (filter (fun t => negb (sid_uni (t_id t))) (c_streams c)))
+         (map t_id (filter (fun t => sid_uni (t_id t)) (c_streams c))).
+
+(* the store loop of the repaired function: the limits are taken one at a time (absent = 0); with 0-RTT accepted the
+   first value below the one held raises, the earlier ones are already stored *)
+Definition store_limits (chk : bool) (c : conn) (md bl br un sb su : Z) : fout * conn :=
+  if chk && (md <? c_max_data c) then (FQErr PROTOCOL_VIOLATION, c) else
+  let c1 := with_limits c md (c_msd_bl c) (c_msd_br c) (c_msd_uni c) (c_ms_bidi c) (c_ms_uni c) in
+  if chk && (bl <? c_msd_bl c) then (FQErr PROTOCOL_VIOLATION, c1) else
+  let c2 := with_limits c md bl (c_msd_br c) (c_msd_uni c) (c_ms_bidi c) (c_ms_uni c) in
+  if chk && (br <? c_msd_br c) then (FQErr PROTOCOL_VIOLATION, c2) else
+  let c3 := with_limits c md bl br (c_msd_uni c) (c_ms_bidi c) (c_ms_uni c) in
+  if chk && (un <? c_msd_uni c) then (FQErr PROTOCOL_VIOLATION, c3) else
+  let c4 := with_limits c md bl br un (c_ms_bidi c) (c_ms_uni c) in
+  if chk && (sb <? c_ms_bidi c) then (FQErr PROTOCOL_VIOLATION, c4) else
+  let c5 := with_limits c md bl br un sb (c_ms_uni c) in
+  if chk && (su <? c_ms_uni c) then (FQErr PROTOCOL_VIOLATION, c5) else
+  (FOk, with_limits c md bl br un sb su).
 
 Definition fstep (c : conn) (op : fop) : fout * conn :=
   match op with
@@ -261,6 +310,44 @@ Definition fstep (c : conn) (op : fop) : fout * conn :=
       | None => (FNoStream, c)
       | Some _ => (FOk, if k then c else with_streams c (upd_strm sid (set_stop true) (c_streams c)))
       end
+  | OBlockedFrame uni =>
+      (* `if self._streams_blocked_bidi: self._write_streams_blocked_frame(..., limit=self._remote_max_streams_bidi)`
+         (and the same for uni); WHEN the step runs (_handshake_complete and _streams_blocked_pending) is an input *)
+      (FBlocked (match (if uni then c_blk_uni c else c_blk_bidi c) with
+                 | [] => None
+                 | _ :: _ => Some (if uni then c_ms_uni c else c_ms_bidi c)
+                 end), c)
+  | OParamsP m md bl br un sb su =>
+      let r := store_limits (match m with PAccepted => true | _ => false end) c
+                 (orz md 0) (orz bl 0) (orz br 0) (orz un 0) (orz sb 0) (orz su 0) in
+      match m with
+      | PRejected => (fst r, reblock (snd r))
+      | _ => r
+      end
+  end.
+
+(* the stream loop of _write_application over _streams_queue, as a sequence of the calls above (discarding of finished
+   streams is not modelled): per queued stream the STOP_SENDING branch, then RESET_STREAM or (elif) STREAM.
+   [budgets] = the size budget the packet builder offers to the _write_stream_frame call of each visited stream, in
+   visiting order (an input); the list ending early = QuicPacketBuilderStop ends the loop for this packet.
+   NOT executed by the tie (the tie feeds the individual calls); used to state progress for a whole pass. *)
+Definition loop_step (c : conn) (sid ms : Z) : list fout * conn :=
+  let r1 := fstep c (OGetStop sid) in
+  let c1 := snd r1 in
+  let reset_branch := match find_strm sid (c_streams c1) with
+                      | Some t => s_reset_pending (t_send t) && negb (t_blocked t)
+                      | None => false
+                      end in
+  let r2 := if reset_branch then fstep c1 (OGetReset sid) else fstep c1 (OGet sid ms) in
+  ([fst r1; fst r2], snd r2).
+
+Fixpoint stream_loop (c : conn) (q : list Z) (budgets : list Z) : list (Z * list fout) * conn :=
+  match q, budgets with
+  | sid :: q', ms :: b' =>
+      let r := loop_step c sid ms in
+      let rr := stream_loop (snd r) q' b' in
+      ((sid, fst r) :: fst rr, snd rr)
+  | _, _ => ([], c)
   end.
 
 Definition frun (c : conn) (ops : list fop) : conn := fold_left (fun c op => snd (fstep c op)) ops c.
@@ -274,10 +361,13 @@ Definition frun (c : conn) (ops : list fop) : conn := fold_left (fun c op => snd
      10 sid acked a b fin  STREAM delivery       11 sid acked  RESET_STREAM delivery    12 sid  peer opens
      13 n sid1..sidn   observe (not an operation)
      14 sid  stop_stream      15 sid  _write_stop_sending_frame      16 sid acked  STOP_SENDING delivery
+     19 uni   the STREAMS_BLOCKED step of _write_application for one kind (0 bidi | 1 uni)
+     18 mode (opt)x6  transport parameters, repaired function (mode 0 ticket | 1 0-RTT accepted | 2 not accepted)
      17   credit observation (not an operation): prints used max_data; the tie emits it before EVERY
           _write_stream_frame call, so the counter is compared between any two frames of one transmit
    output per op: outcome (0 ok | 1 sender-result.. | 2 max_offset sender-result.. | 3 ValueError |
-     4 code QuicConnectionError | 5 ineligible | 6 no stream | 7 STOP_SENDING written);
+     4 code QuicConnectionError | 5 ineligible | 6 no stream | 7 STOP_SENDING written |
+     8 (0 | 1 limit) STREAMS_BLOCKED not written / written with that limit);
    per observe: used max_data max_streams_bidi max_streams_uni #blocked_bidi #blocked_uni, then per listed
      stream (0 | 1 is_blocked max_stream_data_remote highest_offset buffer_is_empty reset_pending stop_pending) *)
 Definition out_fout (o : fout) : list Z :=
@@ -289,6 +379,8 @@ Definition out_fout (o : fout) : list Z :=
   | FQErr code => [4; code]
   | FIneligible => [5]
   | FStop => [7]
+  | FBlocked None => [8; 0]
+  | FBlocked (Some l) => [8; 1; l]
   | FNoStream => [6]
   end.
 
@@ -323,6 +415,11 @@ Definition parse_op (ops : list Z) : option (fop * list Z) :=
   | 14 :: sid :: t => Some (OStop sid, t)
   | 15 :: sid :: t => Some (OGetStop sid, t)
   | 16 :: sid :: k :: t => Some (OStopDeliv sid (z2b k), t)
+  | 19 :: uni :: t => Some (OBlockedFrame (z2b uni), t)
+  | 18 :: m :: t =>
+      let '(a, t) := tk_opt t in let '(b, t) := tk_opt t in let '(c, t) := tk_opt t in
+      let '(d, t) := tk_opt t in let '(e, t) := tk_opt t in let '(f, t) := tk_opt t in
+      Some (OParamsP (if m =? 0 then PTicket else if m =? 1 then PAccepted else PRejected) a b c d e f, t)
   | _ => None
   end.
 
